@@ -267,6 +267,8 @@ def run_case(ctx, case):
                 np.random.seed(case["rseed"] % (2 ** 32))
                 out2 = f2.sample_combos(case["n_samples"], verbosity=0)
     except Exception as e:
+        for msg in bad[:2]:                 # (what was found so far is reported before the harness error surfaces)
+            ctx.violation(case, msg, dict(sig, oracle=" ".join(msg.split(" ")[:3])))
         raise AssertionError("direct run of the twin farmer failed: %r" % (e,))
 
     ctx.count("pipelines_compared")
